@@ -16,6 +16,7 @@ import json, os, shutil
 import concurrent.futures as cf
 import vlib
 import c13x
+import c13_mirror
 
 LEVEL = "model_checking"
 MPIRUN = ["mpirun", "--allow-run-as-root", "--oversubscribe", "--bind-to", "none", "-np"]
@@ -122,10 +123,14 @@ def app_runs(chk, app):
 def run(chk):
     if shutil.which("mpirun") is None or shutil.which("mpicxx") is None:
         raise vlib.MachineryError("MPI toolchain (mpicxx/mpirun) not available")
-    binary, app, gmat, gvec, gxfer = vlib.build(["c13_synch", "c13_poisson_app", "c13_gmat", "c13_gvec", "c13_xfer"], variant="mpi")
+    binary, app, gmat, gvec, gxfer, _mir = vlib.build(["c13_synch", "c13_poisson_app", "c13_gmat", "c13_gvec", "c13_xfer", "c13_mirrorasm"], variant="mpi")
     chk.known = vlib.load_known("C13")
     thorough = chk.tier == "thorough"
     only_ext = os.environ.get("C13_ONLY", "") == "ext"      # development aid: skip the parts that were there before the extension
+    if os.environ.get("C13_ONLY", "") == "mirror":          # development aid: the mirror-assembly route alone
+        chk.traces = c13_mirror.run_mirror(chk)
+        chk.rule = "mirror assembly route only (development run)"
+        return
     # ---- M ---------------------------------------------------------------------------------------
     mcs = [("Synch_mc3.cfg", 8)] + ([("Synch_mc4.cfg", 8)] if thorough else [("Synch_mc4s.cfg", 4)])
     if only_ext:
@@ -139,6 +144,9 @@ def run(chk):
     ex_x = cf.ThreadPoolExecutor(max_workers=1)
     futs = [(ex_m.submit(vlib.tlc, "Synch", c, workers=w, want_printed=False, timeout=3000, xmx="12g"), c) for c, w in mcs]
     fut_ext = ex_x.submit(c13x.run_ext, chk, gmat, gvec, gxfer)
+    # A: the mirror assembly of the control layer (lib/c13_mirror.py: configurations on real MPI ranks, judged by spec/MirrorAsm.tla)
+    ex_a = cf.ThreadPoolExecutor(max_workers=1)
+    fut_mir = ex_a.submit(c13_mirror.run_mirror, chk)
     # ---- G generation ------------------------------------------------------------------------------
     # (ranks, global dofs, largest local renumbering kind of module Renum)
     plan = [(1, 3, 2), (2, 3, 5), (3, 3, 5), (4, 2, 2), (4, 3, 0), (5, 2, 2), (6, 2, 2)] if thorough else [(1, 3, 2), (2, 3, 2), (3, 3, 2), (4, 2, 2)]
@@ -212,7 +220,9 @@ def run(chk):
     # ---- extension: matrices, blocked/tuple vectors, scalar tickets, muxer/splitter, filters, layered transfer (lib/c13x.py) ----
     total += fut_ext.result()
     vlib.log("[c13] extension done at %.1fs" % (time.time() - t_start))
-    for e in (ex_m, ex_g, ex_x):
+    total += fut_mir.result()
+    vlib.log("[c13] mirror assembly route done at %.1fs" % (time.time() - t_start))
+    for e in (ex_m, ex_g, ex_x, ex_a):
         e.shutdown()
     chk.traces = total
     chk.exhaustive = True
